@@ -448,6 +448,41 @@ def run(tier, rep):
             rep.violation(f"ill-typed-accepted:call-form:{q['id']}", detail, replay={"source": q["text"]})
         else:
             rep.violation(f"ill-typed-not-rejected-by-typer:{r['verdict']}:call-form:{q['id']}", detail, replay={"source": q["text"]})
+    # ---- the type of a field read from a generic struct, inside generic code whose type parameters are spelled like the struct's
+    # own (swapped, rotated, partly instantiated): the declared result type is once the field's type (control, must be accepted) and
+    # once another parameter / a concrete type (ill-typed by the declarations, must be rejected by the typer)
+    fhead = "struct Pair[T, U] { first: T, second: U }\nstruct Tri[T, U, V] { a: T, b: U, c: V }\n"
+    fcases = {   # name: (generics, parameter type, field, its type, wrong result types)
+        "swapped-first": ("[T, U]", "Pair[U, T]", "first", "U", ["T", "int32"]),
+        "swapped-second": ("[T, U]", "Pair[U, T]", "second", "T", ["U", "string"]),
+        "swapped-other-names": ("[A, B]", "Pair[B, A]", "first", "B", ["A"]),
+        "later-name-first-position": ("[U]", "Pair[U, int32]", "first", "U", ["int32"]),
+        "later-name-first-position-second": ("[U]", "Pair[U, int32]", "second", "int32", ["U"]),
+        "earlier-name-second-position": ("[T]", "Pair[int32, T]", "second", "T", ["int32"]),
+        "rotated-a": ("[T, U, V]", "Tri[U, V, T]", "a", "U", ["T", "V"]),
+        "rotated-b": ("[T, U, V]", "Tri[U, V, T]", "b", "V", ["T", "U"]),
+        "rotated-c": ("[T, U, V]", "Tri[U, V, T]", "c", "T", ["U", "V"]),
+        "same-order": ("[T, U]", "Pair[T, U]", "first", "T", ["U"]),
+    }
+    freqs = []
+    for fname, (gens, pty, field, fty, wrongs) in fcases.items():
+        for wname, rty in [("control", fty)] + [("declared-" + w, w) for w in wrongs]:
+            text = fhead + f"fn f{gens}(p: {pty}) -> {rty} {{ p.{field} }}\nfn main() -> unit {{ () }}\n"
+            freqs.append({"id": f"{fname}:{wname}", "text": text, "dir": mroot})
+    for q, r in zip(freqs, gv_parallel("compile", freqs, extra=["--limit-ms", "30000"])):
+        detail = {"mutation": "field-type-of-generic-struct", "verdict": r["verdict"], "diagnostics": [d["msg"] for d in r.get("diags", [])][:4], "panic": r.get("msg"), "source": q["text"]}
+        if q["id"].endswith(":control"):
+            if r["verdict"] != "ok":
+                rep.violation(f"well-typed-rejected:generic-field-type:{q['id']}", detail, replay={"source": q["text"]})
+            continue
+        mverd[r["verdict"]] += 1
+        if r["verdict"] == "typer":
+            continue
+        if r["verdict"] == "ok":
+            rep.violation(f"ill-typed-accepted:generic-field-type:{q['id']}", detail, replay={"source": q["text"]})
+        else:
+            rep.violation(f"ill-typed-not-rejected-by-typer:{r['verdict']}:generic-field-type:{q['id']}", detail, replay={"source": q["text"]})
+    rep.coverage["generic_field_type_programs"] = len(freqs)
     if acc:
         aerr, _ = judge(acc[:50], "c03-accepted-mutants")
         rep.coverage["accepted_mutants_also_flagged_by_judgment"] = sum(1 for i, _ in acc[:50] if aerr.get(i))
